@@ -422,14 +422,32 @@ def handle_mismatch(cx, c, family, m, lines, label):
             mm2, tr2 = check_script(corr_bin, family, shrunk, cx.work, "final")
             if mm2:
                 final_m, trace = mm2[0], tr2
-    mon = c.get("monitor")
+    # Search for a failing input of THIS property: a disagreement on an operation whose result the
+    # property statement constrains (c['observable']) is one, because the model provably satisfies the
+    # statement.  A disagreement on internal state only is first extended with probe operations.
     verdict = None
-    if mon:
+    observable = c.get("observable")
+    def relevant(mm):
+        return observable is None or mm["op"].split(" ")[0] in observable
+    if c.get("mismatch_is_violation") and relevant(final_m):
+        verdict = "observable result differs from the proved model"
+    elif observable is not None:
+        if relevant(final_m):
+            verdict = "observable result differs from the proved model"
+        elif c.get("probes") and shrunk and m["case"] != "?":
+            ext = shrunk + c["probes"](shrunk)
+            mm3, tr3 = check_script(corr_bin, family, ext, cx.work, "probe")
+            hit = [x for x in mm3 if relevant(x)]
+            if hit:
+                shrunk, final_m, trace = ext, hit[0], tr3
+                verdict = "probe operations appended to the minimised script expose an observable difference"
+    mon = c.get("monitor")
+    if mon and not verdict:
         try:
             verdict = mon(cx.prop, final_m, trace)
         except Exception as e:  # a monitor bug must not hide the disagreement
             verdict = None
-    found = bool(verdict) or c.get("mismatch_is_violation", False)
+    found = bool(verdict)
     replay = dict(property=cx.prop, kind="ops", family=family, seed=cx.seed, tier=cx.tier, source=label,
                   case=m["case"], input=shrunk, shrunk_from=len(ops), shrink_runs=runs,
                   op=final_m["op"], expected=final_m["expected"], observed=final_m["observed"],
